@@ -54,3 +54,35 @@ Theorem C14_patterns_only_matching_tags :
     /\ is_component E name = is_component (without_patterns E) name.
 Proof. exact tag_patterns_indep. Qed.
 Print Assumptions C14_patterns_only_matching_tags.
+
+(* ---- mergeProps ------------------------------------------------------------------------------ *)
+From VJ Require Import Model.Util Model.Directive Lemmas.MergeIndep.
+
+(* an attribute list without a spread, without an `on` / `nativeOn` object under transformOn, and in
+   which no class / style / listener key is produced twice is lowered identically - props
+   expression, flags, dynamic-prop list, directives, slots, resulting state - with mergeProps on
+   and off: the option only reaches elements that use the feature it governs *)
+Theorem C14_mergeProps_only_spread_or_repeat :
+  forall (E : env) (attrs : list node) (ic : bool) (s : st),
+    forallb (merge_free E) attrs = true ->
+    nodup_keys [] (a_props (fold_left (attr_step (with_merge false E) ic) attrs
+                                      (mkAcc [] [] [] [] None false false false false false s))) = true ->
+    transform_attrs (with_merge true E) attrs ic s = transform_attrs (with_merge false E) attrs ic s.
+Proof. exact transform_attrs_merge_indep. Qed.
+Print Assumptions C14_mergeProps_only_spread_or_repeat.
+
+(* non-vacuity: `<div class={a} id="i" onClick={fn} />` meets the hypotheses; with a repeated class it does not *)
+Example C14_mergeProps_nonvacuous :
+  let E := {| e_opts := {| o_transform_on := true; o_optimize := true; o_merge_props := true;
+                           o_object_slots := true; o_pragma := None; o_resolve_type := false; o_npat := 0 |};
+              e_unres := 1; e_matches := []; e_html := [s_ "div"]; e_svg := []; e_comments := [] |} in
+  let idn := fun (n : String.string) => Ident (s_ n) 2 false in
+  let attrs := [JAttr (IdName (s_ "class")) (JExprC (idn "a"%string)); JAttr (IdName (s_ "id")) (Str (s_ "i") nnull);
+                JAttr (IdName (s_ "onClick")) (JExprC (idn "fn"%string))] in
+  let twice := attrs ++ [JAttr (IdName (s_ "class")) (JExprC (idn "b"%string))] in
+  let props := fun l => a_props (fold_left (attr_step (with_merge false E) false) l
+                                           (mkAcc [] [] [] [] None false false false false false st0)) in
+  forallb (merge_free E) attrs = true /\ nodup_keys [] (props attrs) = true
+  /\ nodup_keys [] (props twice) = false
+  /\ forallb (merge_free E) [JAttr (IdName (s_ "on")) (JExprC (idn "o"%string))] = false.
+Proof. vm_compute. repeat split; reflexivity. Qed.
